@@ -32,7 +32,23 @@ package nodes
 //@   modifies nothing
 
 // the node addresses of one family (used by the configuration parser to refuse pools that contain a node address)
+// IsNodeAddr: x is the parsed InternalIP address j of node i, of the wanted family (any family for DualStack)
+//@ pred IsNodeAddr(nodes []corev1.Node, family ipfamily.Family, i int, j int, x net.IP) := 0 <= i && i < len(nodes) && 0 <= j && j < len(nodes[i].Status.Addresses)
+//@     && nodes[i].Status.Addresses[j].Type == corev1.NodeInternalIP && sameSlice(x, net.parseIP(nodes[i].Status.Addresses[j].Address))
+//@     && (family == ipfamily.DualStack || ite(net.is4(x), ipfamily.IPv4, ipfamily.IPv6) == family)
 //@ func NodeIPsForFamily
-//@   trusted
 //@   pure
+//@   ensures [sound] forall k int :: 0 <= k && k < len(result) ==> (exists i int, j int :: IsNodeAddr(nodes, family, i, j, result[k]))
+//@   ensures [complete] forall i int, j int :: IsNodeAddr(nodes, family, i, j, net.parseIP(nodes[i].Status.Addresses[j].Address)) ==> (exists k int :: 0 <= k && k < len(result) && sameSlice(result[k], net.parseIP(nodes[i].Status.Addresses[j].Address)))
 //@   modifies nothing
+//@   assert after append#1: [last] len(ret) == len(nodeIPs) + 1 && sameSlice(ret[len(nodeIPs)], nodeIP)
+//@   assert after append#1: [prefix] forall k int :: 0 <= k && k < len(nodeIPs) ==> sameSlice(ret[k], nodeIPs[k])
+//@   assert after append#1: [isAddr] sameSlice(nodeIP, net.parseIP(a.Address)) && IsNodeAddr(nodes, family, idx(1), idx(2), nodeIP)
+//@   loop 1 binds n
+//@   loop 1 invariant nodeIPs == nil || fresh(nodeIPs)
+//@   loop 1 invariant forall k int :: 0 <= k && k < len(nodeIPs) ==> (exists i int, j int :: i < iter && IsNodeAddr(nodes, family, i, j, nodeIPs[k]))
+//@   loop 1 invariant forall i int, j int :: i < iter && IsNodeAddr(nodes, family, i, j, net.parseIP(nodes[i].Status.Addresses[j].Address)) ==> (exists k int :: 0 <= k && k < len(nodeIPs) && sameSlice(nodeIPs[k], net.parseIP(nodes[i].Status.Addresses[j].Address)))
+//@   loop 2 binds a
+//@   loop 2 invariant nodeIPs == nil || fresh(nodeIPs)
+//@   loop 2 invariant forall k int :: 0 <= k && k < len(nodeIPs) ==> (exists i int, j int :: (i < idx(1) || (i == idx(1) && j < iter)) && IsNodeAddr(nodes, family, i, j, nodeIPs[k]))
+//@   loop 2 invariant forall i int, j int :: (i < idx(1) || (i == idx(1) && j < iter)) && IsNodeAddr(nodes, family, i, j, net.parseIP(nodes[i].Status.Addresses[j].Address)) ==> (exists k int :: 0 <= k && k < len(nodeIPs) && sameSlice(nodeIPs[k], net.parseIP(nodes[i].Status.Addresses[j].Address)))
